@@ -72,6 +72,14 @@ def evaluate(case, out):
     except Exception as e:  # noqa
         out.lib_exception("setup", e)
         return
+    # the bound is in the test as soon as the margins are set (the first sample-size estimate uses it, before any p-value)
+    for cid, con in contests.items():
+        for key, a in con.assertions.items():
+            if a.margin is None or not np.isfinite(a.margin) or not (a.margin > 0):
+                continue
+            ub0 = a.assorter.upper_bound
+            want0 = ub0 if con.audit_type == "POLLING" else 2 / (2 - a.margin / ub0)
+            out.expect(abs(a.test.u - want0) <= 1e-12 * want0, "u-not-installed-when-margins-are-set", lambda: (cid, key, con.audit_type, a.test.u, want0))
     # contests that cannot be sampled (no card lists them) are dropped, as an auditor would
     for cid in [c for c in contests if not any(cv.has_contest(c) for cv in cvrs)]:
         del contests[cid]
